@@ -41,4 +41,11 @@ VARIANTS = [
     V("N-handler-raise-bare", Q, "            raise e", "            raise", None),
     # wave 6: the codec the labels are made with
     V("key-from-term-name(C01/R01.7)", "src/soundevent/data/compat.py", "def key_from_term(term: Term) -> str:\n    return term.label", "def key_from_term(term: Term) -> str:\n    return term.name", "C01/R01.7"),
+    # mutation audit, third operator set: which field each coordinate is read from
+    V("box-start-read-from-offset", "src/soundevent/io/crowsetta/bbox.py", "    start_time = bbox.onset\n", "    start_time = bbox.offset\n", "R10.8"),
+    V("box-low-read-from-high", "src/soundevent/io/crowsetta/bbox.py", "    low_freq = bbox.low_freq\n", "    low_freq = bbox.high_freq\n", "R10.8"),
+    V("box-end-scaled-from-start", "src/soundevent/io/crowsetta/bbox.py", "        end_time = end_time / recording.time_expansion", "        end_time = start_time / recording.time_expansion", "R10.8"),
+    V("segment-start-from-offset-samples", "src/soundevent/io/crowsetta/segment.py", "        start_time = segment.onset_sample / samplerate", "        start_time = segment.offset_sample / samplerate", "R10.8"),
+    V("segment-missing-onset-test-on-offset", "src/soundevent/io/crowsetta/segment.py", "        if segment.onset_sample is None:", "        if segment.offset_sample is None:", "R10.8", occurrence=0),
+    V("N-box-fields-unpacked-together", "src/soundevent/io/crowsetta/bbox.py", "    start_time = bbox.onset\n    end_time = bbox.offset\n", "    start_time, end_time = bbox.onset, bbox.offset\n", None),
 ]
